@@ -5,24 +5,27 @@ PROPERTIES = ['C12', 'C02']
 PERIODS = {'nano': (1, 1000000000), 'micro': (1, 1000000), 'milli': (1, 1000), 'sec': (1, 1), 'min': (60, 1), 'hour': (3600, 1), 'day': (86400, 1),
            'third': (1, 3), 'r5_7': (5, 7), 'ntsc': (1001, 30000)}
 BOUNDS = {
-    'quick': ('30 ordered period pairs out of the 10x10 grid {nano,micro,milli,1,minute,hour,day,1/3,5/7,1001/30000} x Rep {int32,int64}. '
-              'duration_cast, floor, ceil, time_point_cast/floor/ceil/round, round == std::chrono, + - comparisons, conversion to the common type, d/d and d%d == std::chrono, '
-              'abs, unary, ++/--, += -=, /= %= : EVERY tick count of the Rep inside the representable domain (exact result and common-type intermediates fit; interval computed at compile time). '
-              'round against the rational oracle: every count of the domain when the conversion factor is integral (finer target), |count| < 2^20 when it divides (coarser target); '
-              'additionally Rep=int16 on 12 pairs where round/floor/ceil/cast are decided for ALL counts of the Rep (template logic, full range). '
-              'Oracles with a symbolic product (d/d quotient definition, *=, /= definition): |divisor or multiplier| < 2^DLIM, DLIM=6, |dividend| < 2^16 for d/d and /=. '
-              'float/double Rep on 4 pairs: cast, floor, ceil, abs, + -, comparisons, d/d, compound ops, converting constructor, time_point casts == libstdc++ bit for bit for every bit pattern (NaN excluded for comparisons). '
-              'mixed Rep (int32+int64, int64+int16, float+double, int+floating) + - comparisons, common-type conversion on 2 pairs.'),
-    'thorough': ('as quick with all 100 ordered pairs x {int32,int64}; round with the rational oracle |count| < 2^24 for dividing factors; int16 on every pair with a non-empty domain; '
-                 'DLIM=8; float/double on 30 pairs; mixed Rep on 6 pairs'),
+    'quick': ('30 ordered period pairs out of the 10x10 grid {nano,micro,milli,1,minute,hour,day,1/3,5/7,1001/30000} x Rep {int32,int64}; arithmetic entries on every second pair. '
+              'EVERY tick count of the Rep inside the representable domain (exact result and common-type intermediates fit; the interval is computed at compile time) for: '
+              'duration_cast, floor, ceil (rational oracle and std::chrono), round == std::chrono (except the pairs in ROUND_STD_HARD, where cvc5 gives no verdict), '
+              'time_point_cast/floor/ceil/round == the duration operations and == std::chrono, + - (exact and std::chrono), conversion to the common type, six comparisons of durations and of time_points, '
+              'd/d and d%d == std::chrono, remainder magnitude/sign, abs, unary + -, ++/--, zero/min/max, += -= *= (all multipliers), /= %= (built-in operators in a wider type and std::chrono), time_point += -= ++ --. '
+              'round against the rational oracle (nearest, ties to even): every count of the domain when the conversion factor is integral (finer target); |count| < 2^16 when it divides (coarser target, SAT); '
+              'additionally Rep=int16 on 12 pairs where cast/floor/ceil/round (rational oracle) are decided for ALL counts of the Rep - a full-range verdict for the template logic. '
+              'd/d quotient against the definition |A - q*B| < |B| (symbolic product): |divisor| < 2^5, |dividend| < 2^12, 3 pairs. '
+              'float/double Rep on 4 pairs: cast, floor, ceil, abs, unary, + -, common type, comparisons, d/d, += -= *= /=, converting constructor, time_point casts == libstdc++ bit for bit for every bit pattern. '
+              'mixed Rep: int32+int64, int64+int16 (exact + std::chrono), float+double, double+float, double+int32, int64+double on 1-2 pairs; integer operands of an integer/floating mix |count| <= 2^31 and |count*factor| < 2^53.'),
+    'thorough': ('as quick with all 100 ordered pairs x {int32,int64} (pairs with an empty domain skipped); round with the rational oracle |count| < 2^20 for dividing factors; '
+                 'int16 on every pair with a non-empty domain; d/d quotient definition |divisor| < 2^6 on all pairs; float/double on 30 pairs; more mixed-Rep pairs'),
 }
 ASSUMPTIONS = [
     'C12: inputs restricted to those whose exact result and intermediate common-type / intmax_t values are representable (outside that std::chrono is undefined too); the domain is an interval of counts computed by a constexpr 128-bit search in the driver and static_assert-checked at its ends',
     'C12: abs and unary minus exclude Rep::min, ++/-- exclude the extreme value; division/modulo exclude zero divisors and min / -1',
     'C12: floating-point Rep: the oracle is libstdc++ std::chrono executed through the same pipeline (bit-exact agreement), not a rational oracle; NaN counts are excluded from the comparison operators (libstdc++ answers false for NaN <= NaN, the standard wording !(rhs < lhs) and etl answer true); round is not defined for floating Rep (std constraint)',
-    'C12: integer operands of a mixed integer/floating pair are restricted to counts whose exact common-type value has at most 24/53 significant bits (then the exact result is representable and std::chrono yields it)',
-    'C12: q_round with RLIM and the entries with DLIM/ALIM are range-bounded as stated in BOUNDS; everything else is over the whole domain',
+    'C12: q_round with RLIM and q_divdef with DLIM/ALIM are range-bounded as stated in BOUNDS; everything else is over the whole domain',
+    'C12: period pair nano x 5/7: round<> does not compile (etl::lcm(d, d) overflows for the common denominator 7e9, lcm.hpp computes (m*n)/gcd) - kernels are built with NO_ROUND there and round is outside the claim',
     'C12: binary duration*scalar, scalar*duration, duration/scalar, duration%scalar, time_point +/- duration and time_point - time_point do not exist in tetl (missing functionality, nothing to encode); the time_point converting constructor does not compile (time_point.hpp:55 calls time_since_epch()) and is therefore not encodable either',
+    'C12: int64 + double with a factor other than 1 on the integer side: the main query gets no verdict from any back end; only the confirm query of known finding C12_conv_ctor_int_overflow runs for that configuration',
 ]
 QUICK_PAIRS = [('milli', 'sec'), ('sec', 'milli'), ('nano', 'micro'), ('micro', 'nano'), ('sec', 'min'), ('min', 'sec'), ('min', 'hour'), ('hour', 'min'),
                ('sec', 'day'), ('day', 'sec'), ('third', 'sec'), ('sec', 'third'), ('r5_7', 'third'), ('third', 'r5_7'), ('ntsc', 'milli'), ('milli', 'ntsc'),
@@ -45,7 +48,9 @@ MIXED = {
 }
 
 # (Rep width, From, To) for which cvc5 gives no verdict on round == std::chrono over the whole domain (measured, 40 s budget)
-ROUND_STD_HARD = set()
+ROUND_STD_HARD = {(w, f, t) for w in (32, 64) for (f, t) in [
+    ('nano', 'third'), ('nano', 'ntsc'), ('micro', 'third'), ('micro', 'r5_7'), ('micro', 'ntsc'), ('milli', 'r5_7'), ('milli', 'third'),
+    ('ntsc', 'milli'), ('ntsc', 'sec'), ('ntsc', 'min'), ('ntsc', 'hour'), ('ntsc', 'day'), ('ntsc', 'third'), ('ntsc', 'r5_7')]}
 
 SMT = ['cvc5int']          # decided by cvc5 on the exported VC (integer view of the bit-vector VC)
 SMTF = ['cvc5', 'kissat']  # floating point: cvc5 (shares identical terms of the two libraries); SAT only to obtain a trace
@@ -145,7 +150,7 @@ def unary_queries(w, f, dlim, bud):
     fn, fd = PERIODS[f]
     cfg = {'REPW': w, 'FN': fn, 'FD': fd, 'TN': 1, 'TD': 1, 'RLIM': 0, 'DLIM': dlim, 'ALIM': 16 if w > 16 else 0}
     out = []
-    for e, s in (('q_period', ['minisat']), ('q_abs', SAT), ('q_unary', SAT), ('q_caddsub', SAT), ('q_cmul', SAT), ('q_cmul_std', SMT), ('q_cdivmod', SMT),
+    for e, s in (('q_period', ['minisat']), ('q_abs', SAT), ('q_unary', SAT), ('q_caddsub', SAT), ('q_cmul', ['cvc5', 'kissat']), ('q_cmul_std', SMT), ('q_cdivmod', SMT),
                  ('q_cdivdef', SAT), ('q_tp_arith', SAT)):
         out.append(dict(entry=e, cfg=cfg, unwind=3, solver=s, budget=bud))
     return out
